@@ -378,8 +378,10 @@ pub fn run_mappings(out: &mut Out, tier: &str, rng: &mut Rng) {
         json!({"PathBuf": "string"}),
         json!({"Uuid": "string", "PathBuf": "string", "Timestamp": "number"}),
         json!({"DateTime<Utc>": "string", "Flag": "boolean"}),
+        // keys headed by a smart pointer / a wrapper the tool otherwise looks through
+        json!({"Box<RawValue>": "string", "Arc<Session>": "number", "Rc<Node>": "string", "Cow<'static, str>": "string"}),
     ];
-    let mapped_names = ["PathBuf", "Uuid", "Timestamp", "DateTime<Utc>", "Flag", "User"];
+    let mapped_names = ["PathBuf", "Uuid", "Timestamp", "DateTime<Utc>", "Flag", "User", "Box<RawValue>", "Arc<Session>", "Rc<Node>"];
     let mut kk = 0usize;
     for name in mapped_names {
         let n = RTy::Named(name.to_string());
